@@ -145,6 +145,14 @@ def records_judge(job, r):
     if not r["generation_ok"]:
         return issues
     jit_start = cfg["jit_start_address"] // 4 * 4
+    int_start = cfg["interpreter_start_address"] // 4 * 4
+    # the emitted binary is int.bin immediately followed by jit.bin, loaded at the interpreter start: reported
+    # addresses are positions in it only if int.bin spans exactly the distance between the two starts
+    nint = len(r["files"].get("int", "")) // 2
+    if nint != jit_start - int_start:
+        issues.append(f"int.bin is {nint} bytes for a distance of {jit_start - int_start} between the interpreter and "
+                      f"JIT starts: in the emitted binary every element sits {nint - (jit_start - int_start)} bytes "
+                      f"away from its reported address")
     djit = S.decode_words(v, r["files"]["jit"])
     end = jit_start + 4 * len(djit)
 
@@ -256,6 +264,10 @@ def run_records_slice(ctx):
             if r["exc"]:
                 violations.append({"kind": "runner-raises", "job": j, "group": "runner-raises",
                                    "what": f"{tag}: Runner.generate_binary raised {r['exc']}"})
+            elif r.get("files"):
+                violations.append({"kind": "files-without-records", "job": j, "group": "files-without-records",
+                                   "what": f"{tag}: generation flagged as failed but files {sorted(r['files'])} "
+                                           f"were written: no record describes them"})
             continue
         dist["ok"] += 1
         for what in records_judge(j, r):
